@@ -5,6 +5,7 @@
 #pragma once
 #include <cstdio>
 #include <cstdarg>
+#include <cerrno>
 #include <cstring>
 #include <string>
 #include <vector>
@@ -135,11 +136,11 @@ FILE *__wrap_fopen(const char *path, const char *mode)
     std::vector<Fault> faults; faults.swap(g_fs.nextOpenFaults);
     for(size_t i = 0; i < faults.size(); ++i)
     {
-        if(!wr && faults[i].kind == FS_NOENT) { g_fs.fired["noent"]++; return NULL; }
-        if(wr && faults[i].kind == FS_OPENWFAIL) { g_fs.fired["openwfail"]++; return NULL; }
+        if(!wr && faults[i].kind == FS_NOENT) { g_fs.fired["noent"]++; errno = ENOENT; return NULL; }
+        if(wr && faults[i].kind == FS_OPENWFAIL) { g_fs.fired["openwfail"]++; errno = EACCES; return NULL; }
     }
     std::string name = path ? path : "";
-    if(!wr && !g_fs.files.count(name)) return NULL;
+    if(!wr && !g_fs.files.count(name)) { errno = ENOENT; return NULL; }   // like libc: a failing call says why (callers print strerror(errno))
     SimHandle *h = new SimHandle;
     h->magic = 0x51F5; h->name = name; h->pos = 0; h->write = wr; h->eof = false; h->err = false; h->shortDone = false;
     h->faults = faults;
@@ -174,7 +175,7 @@ size_t __wrap_fread(void *buf, size_t size, size_t n, FILE *f)
     if(re && h->pos + take > (size_t)re->arg)
     {
         size_t lim = (size_t)re->arg > h->pos ? (size_t)re->arg - h->pos : 0;
-        take = lim; h->err = true; g_fs.fired["readerr"]++;
+        take = lim; h->err = true; g_fs.fired["readerr"]++; errno = EIO;
     }
     const Fault *sr = g_fs.find(h, FS_SHORTREAD);
     if(sr && !h->shortDone && h->pos <= (size_t)sr->arg && h->pos + take > (size_t)sr->arg)
@@ -198,7 +199,7 @@ size_t __wrap_fwrite(const void *buf, size_t size, size_t n, FILE *f)
     if(wf && g_fs.bytesWritten + want > (size_t)wf->arg)
     {
         want = (size_t)wf->arg > g_fs.bytesWritten ? (size_t)wf->arg - g_fs.bytesWritten : 0;
-        g_fs.fired["writefull"]++; h->err = true;
+        g_fs.fired["writefull"]++; h->err = true; errno = ENOSPC;
     }
     if(h->pos + want > h->data.size()) h->data.resize(h->pos + want);
     if(want) memcpy(h->data.data() + h->pos, buf, want);
@@ -211,10 +212,10 @@ int __wrap_fseek(FILE *f, long off, int whence)
     using namespace sim;
     SimHandle *h = g_fs.get(f);
     if(!h) return __real_fseek(f, off, whence);
-    if(g_fs.find(h, FS_SEEKFAIL)) { g_fs.fired["seekfail"]++; return -1; }
+    if(g_fs.find(h, FS_SEEKFAIL)) { g_fs.fired["seekfail"]++; errno = ESPIPE; return -1; }
     long base = whence == SEEK_SET ? 0 : (whence == SEEK_CUR ? (long)h->pos : (long)h->data.size());
     long np = base + off;
-    if(np < 0) return -1;   // EINVAL, like libc
+    if(np < 0) { errno = EINVAL; return -1; }   // like libc
     h->pos = (size_t)np; h->eof = false;
     return 0;
 }
@@ -224,7 +225,7 @@ long __wrap_ftell(FILE *f)
     using namespace sim;
     SimHandle *h = g_fs.get(f);
     if(!h) return __real_ftell(f);
-    if(g_fs.find(h, FS_TELLFAIL)) { g_fs.fired["tellfail"]++; return -1; }
+    if(g_fs.find(h, FS_TELLFAIL)) { g_fs.fired["tellfail"]++; errno = ESPIPE; return -1; }
     return (long)h->pos;
 }
 
